@@ -345,6 +345,7 @@ def run_history(h):
                     mode = st.get("mode", "explicit")
                     mask_area = mask_da if (mode == "explicit" and mask_da is not None) else (True if mode == "on" else False)
                     res = r.resample(data_da, mask_area=mask_area, fill_value=fill_x, radius_of_influence=radius)
+                    w["cache_size"] = len(r._internal_cache)
                 w["alone"] = result_obs(res)
                 lazies.append(res.data)
                 slots.append((k, "joint"))
